@@ -8,6 +8,7 @@ import (
 	"os"
 	"path/filepath"
 	"sync/atomic"
+	"syscall"
 	"time"
 
 	"github.com/form3tech-oss/f1/v2/internal/metrics"
@@ -316,6 +317,13 @@ func init() {
 				c.TimeoutMS = 60000
 				cs = append(cs, c)
 			}
+			// a failing run interrupted by a real SIGINT: still a failed run
+			{
+				c := core.MkCase("C08", "cli", 940, seed, c08CLIParams{Mode: "signal", N: 10, Conc: 2})
+				c.Solo = true
+				c.TimeoutMS = 60000
+				cs = append(cs, c)
+			}
 			// consecutive command lines on one f1 instance
 			for i := 0; i < 3; i++ {
 				c := core.MkCase("C08", "cli", 970+i, seed, c08CLIParams{Mode: "tworuns", Conc: i})
@@ -604,6 +612,15 @@ func c08CLI(c *core.Case, o *core.Outcome) {
 		}
 		return func(t *f1testing.T) {
 			n := started.Add(1)
+			if p.Mode == "signal" {
+				// every iteration fails; the tenth interrupts the process the way a terminal does
+				if n == 10 {
+					_ = syscall.Kill(os.Getpid(), syscall.SIGINT)
+				}
+				time.Sleep(2 * time.Millisecond)
+				t.Fail()
+				return
+			}
 			if p.Mode == "drops" {
 				// hold the single worker so that later ticks find work pending
 				if n == 1 {
@@ -634,6 +651,8 @@ func c08CLI(c *core.Case, o *core.Outcome) {
 			args = append(args, "--ignore-dropped")
 		}
 		go func() { time.Sleep(300 * time.Millisecond); close(gate) }()
+	case p.Mode == "signal":
+		args = append(args, "users", "-c", "2", "-d", "30s", "sc")
 	case p.ViaFile:
 		dir := os.Getenv("TMPDIR")
 		path := filepath.Join(dir, fmt.Sprintf("c08-%d.yaml", os.Getpid()))
@@ -698,6 +717,15 @@ func c08CLI(c *core.Case, o *core.Outcome) {
 			o.Violate("cli-teardownfail", "CLI returned nil although teardown failed (%s)", desc)
 		}
 		o.Sig("cli:teardownfail")
+	case "signal":
+		if started.Load() < 10 {
+			o.Inconc("the run ended after %d iterations, before it was interrupted (%s)", started.Load(), desc)
+			return
+		}
+		if err == nil {
+			o.Violate("cli-signal", "a run interrupted by SIGINT after %d iterations, all of them failed, returned no error: the verdict was lost (%s)", started.Load(), desc)
+		}
+		o.Sig("cli:signal")
 	case "drops":
 		// the first tick requests 5 with one held worker: at least 4 are pending when the next tick supersedes
 		want := !p.Ignore
